@@ -117,3 +117,21 @@ pub fn open_through_pipe(bytes: &[u8]) -> Option<Result<rpm::Package, rpm::Error
     let _ = feeder.join();
     Some(r)
 }
+
+
+/// `Package::write_file` into a fresh directory that already holds stale neighbours of the destination
+/// (names a temporary-file scheme might use, each larger than the package), read back.
+pub fn bytes_of_write_file(pkg: &rpm::Package, expected_len: usize) -> Result<Vec<u8>, rpm::Error> {
+    use std::sync::atomic::{AtomicU64, Ordering};
+    static N: AtomicU64 = AtomicU64::new(0);
+    let root = std::env::var("VERIF_WORK_DIR").map(std::path::PathBuf::from).unwrap_or_else(|_| std::env::temp_dir());
+    let dir = root.join(format!("wf-{}-{}", std::process::id(), N.fetch_add(1, Ordering::Relaxed)));
+    std::fs::create_dir_all(&dir)?;
+    let path = dir.join("pkg.rpm");
+    for decoy in ["pkg.rpm.part", "pkg.rpm.tmp", ".pkg.rpm.tmp", "pkg.rpm~", "pkg.part", "pkg.rpm.new", ".pkg.rpm.part"] {
+        let _ = std::fs::write(dir.join(decoy), vec![0xeeu8; expected_len + 4096]);
+    }
+    let r = pkg.write_file(&path).and_then(|_| Ok(std::fs::read(&path)?));
+    let _ = std::fs::remove_dir_all(&dir);
+    r
+}
